@@ -78,22 +78,30 @@ Proof. vm_compute. split; eexists; reflexivity. Qed.
 (* ---------------- round 2: the compression side, pledged source size (model of ZSTD_compressStream2's bookkeeping) ---------------- *)
 From ZV.Codec Require Import C09Pledge.
 
-(* the behaviour the property asks for (model with fixed = true), for EVERY history of calls h (n bytes offered, directive 0/1/2 each)
-   closed by an end call: with a pledge p the frame ends well iff exactly p bytes were supplied - unless the end directive came with
-   the very first call (zstd.h, ZSTD_CCtx_setPledgedSrcSize note 3: then the pledge is overridden by what is supplied) *)
+(* the tree since 99eca65 (model with fixed = true), for EVERY history of calls h (n bytes offered, directive 0/1/2 each) closed by an
+   end call: with a pledge p the frame ends well iff exactly p bytes were supplied - unless no earlier call accepted a byte, i.e. the end
+   directive came with the very first call or behind stable-input calls of 0 bytes (zstd.h, ZSTD_CCtx_setPledgedSrcSize note 3: the
+   pledge is then overridden by what is supplied) *)
 Theorem C09_pledge_enforced : forall stable p h n, no_end h ->
-  verdict true stable (Some p) (h ++ [(n, 2)]) = Some (match h with [] => true | _ => total h + n =? p end).
+  verdict true stable (Some p) (h ++ [(n, 2)]) =
+  Some (if orb (is_nil h) (andb (alldefb stable 0 h) (total h =? 0)) then true else total h + n =? p).
 Proof. exact verdict_fixed. Qed.
 Print Assumptions C09_pledge_enforced.
 
-(* the tree as it stands (fixed = false, mirrors zstd_compress.c): the pledge is ALSO dropped when every earlier call was deferred by the
-   stable-input path (ZSTD_c_stableInBuffer, ZSTD_e_continue, fewer than ZSTD_BLOCKSIZE_MAX bytes in total) - finding
+(* without ZSTD_c_stableInBuffer nothing is ever deferred: one earlier call of any size puts the pledge in force *)
+Corollary C09_pledge_enforced_unstable : forall p c h n, no_end (c :: h) ->
+  verdict true false (Some p) ((c :: h) ++ [(n, 2)]) = Some (total (c :: h) + n =? p).
+Proof. intros p c h n H. rewrite verdict_fixed by exact H. reflexivity. Qed.
+Print Assumptions C09_pledge_enforced_unstable.
+
+(* the tree before 99eca65 (fixed = false): the pledge was ALSO dropped when every earlier call had been deferred by the stable-input
+   path (ZSTD_c_stableInBuffer, ZSTD_e_continue, fewer than ZSTD_BLOCKSIZE_MAX bytes in total), whatever they carried - finding
    C09-stablein-deferred-pledge-overridden; on every other history the two models agree *)
-Theorem C09_pledge_as_is : forall stable p h n, no_end h ->
+Theorem C09_pledge_before_99eca65 : forall stable p h n, no_end h ->
   verdict false stable (Some p) (h ++ [(n, 2)]) =
   Some (match h with [] => true | _ => if alldefb stable 0 h then true else total h + n =? p end).
 Proof. exact verdict_as_is. Qed.
-Print Assumptions C09_pledge_as_is.
+Print Assumptions C09_pledge_before_99eca65.
 
 Theorem C09_pledge_models_differ_only_when_deferred : forall stable p h n, no_end h -> alldefb stable 0 h = false ->
   verdict false stable (Some p) (h ++ [(n, 2)]) = verdict true stable (Some p) (h ++ [(n, 2)]).
@@ -116,6 +124,8 @@ Example C09_pledge_example :
   no_end [(2500, 0); (2500, 0)] /\
   verdict false true (Some 100) ([(2500, 0); (2500, 0)] ++ [(0, 2)]) = Some true /\
   verdict true true (Some 100) ([(2500, 0); (2500, 0)] ++ [(0, 2)]) = Some false /\
-  verdict false false (Some 100) ([(2500, 0); (2500, 0)] ++ [(0, 2)]) = Some false /\
-  (exists s', call false false (fresh (Some 100)) 2500 0 = (s', Cok true)).
+  verdict true false (Some 100) ([(2500, 0); (2500, 0)] ++ [(0, 2)]) = Some false /\
+  verdict true true (Some 100) ([(0, 0)] ++ [(0, 2)]) = Some true /\
+  verdict true false (Some 100) ([(0, 0)] ++ [(0, 2)]) = Some false /\
+  (exists s', call true false (fresh (Some 100)) 2500 0 = (s', Cok true)).
 Proof. split; [repeat constructor; discriminate|]. vm_compute. repeat split; eexists; reflexivity. Qed.
